@@ -24,6 +24,12 @@ LINEAR_EXTERNAL = {
     "std::option::Option::map",
     "std::option::Option::ok_or_else",
     "std::option::Option::ok_or",
+    # the content goes to the function given (as for `map`) or the default is returned when there is none
+    "std::option::Option::map_or",
+    "std::option::Option::map_or_else",
+    "std::option::Option::and_then",
+    "std::result::Result::map_or_else",
+    "std::result::Result::unwrap_or_else",
     "std::future::IntoFuture::into_future",
     "std::task::Poll::Ready",
     "std::hint::must_use",
